@@ -13,7 +13,7 @@ Proof      : coq/Props/C08.v over Model/Commit.v with cas = true and NO hypothes
              client gave up = the same event later in the schedule: C08_delayed_landing_nonvacuous); the committer's
              reaction is computed from the regenerated tables gen_flip_exn / gen_tx_on
              (C08_failed_flip_reaction_regenerated); the chain theorems hold for every such schedule
-             (C08_faulted_no_lost_update) and a committer whose pointer write raised is never acknowledged, whatever the
+             (C08_faulted_no_lost_update_partial: over the machine in which no pointer write lands while a read-back is pending) and a committer whose pointer write raised is never acknowledged, whatever the
              pointer says afterwards (C08_failed_write_never_acknowledged).
              The store REFUSES a write it has APPLIED (XFlipResent: botocore's default retry policy re-sends a PutObject whose
              response was lost; the re-sent copy of the conditional request answers 412/409 because the first one landed): what
@@ -27,12 +27,19 @@ Proof      : coq/Props/C08.v over Model/Commit.v with cas = true and NO hypothes
              writes: prompt_irrelevant_without_pending).
              Model/PtrFallback.v is commit()'s FALLBACK: the pointer object read with the ETag is unusable (absent / garbage /
              dangling), `current = self.refresh()` re-reads it and recovers by scanning; damage events anywhere.
-             UNCONDITIONALLY every applied pointer write replaced exactly the object whose ETag its committer had read, and the
-             version validated is the one named by those bytes or -- unusable object -- the one recovered by the scan, never
-             that of a pointer repaired in between (C08_fallback_replaced_what_it_read).  "No acknowledged commit is
-             overwritten" on that path is FALSE for arbitrary scan results (C08_fallback_no_lost_update_refuted: witness by
-             computation) and proved under the exact extra hypothesis that every scan returns the version named by the last
-             successful pointer write (C08_fallback_no_lost_update_partial; that hypothesis is C10's subject).
+             The store compares only what it can see of an unusable object (rstep_s idn: "absent" = create-if-absent, ONE identity;
+             garbled = the ETag of the content, S3: its MD5).  Every applied pointer write replaced exactly the object STATE whose
+             ETag its committer had read, and the version validated is the one named by those bytes or -- unusable object -- the one
+             recovered by the scan, never that of a pointer repaired in between: proved under the exact hypothesis that no two
+             damage events leave the same store-visible object (C08_fallback_replaced_what_it_read_partial), refuted for an
+             absent pointer deleted twice and for the same garbage written twice within one attempt
+             (C08_fallback_replaced_what_it_read_refuted; reproduced on the real code: needs an outside agent destroying the
+             pointer twice the same way during one commit attempt -- outside the property's schedules, no library repair).  "No
+             acknowledged commit is overwritten" on that path is FALSE for arbitrary scan results and for the double damage
+             (C08_fallback_no_lost_update_refuted: witnesses by computation) and proved under the two exact extra hypotheses:
+             every scan returns the version named by the last successful pointer write (C10's subject; the residual is the
+             event of C10_leftover_surfaces) and damaged objects are pairwise distinguishable (C08_fallback_no_lost_update_partial).
+             PROCESS TOPOLOGY / NAME UNIQUENESS is established by the check, not assumed: see Oracle.
 Tie        : trace validation of the real S3StorageBackend + MetadataManager.commit over an in-memory S3
              with conditional writes (harness/lib/mems3.py), under the scheduler, with a lock that grants
              everyone and with the real lease lock; the projection demands that the validation read IS the read
@@ -55,6 +62,14 @@ Oracle     : the serializability oracle of C01 on every explored schedule; on fa
              append's rows are missing; full serial replay whenever every scan returned the last written version (a scan
              that returns another committer's UNPUBLISHED file -- possible only without lock exclusion on an unusable
              pointer -- is counted in the stats and left to C10).
+             Uniqueness of metadata file names per commit ATTEMPT (what the read-back after a refusal and the clean-up of a failed
+             attempt rest on): over every run of every topology -- handles of their own, threads on one handle, workers FORKED
+             from a process that had opened the table and using the handle they inherited (harness/lib/forkimage.py) -- no two
+             commit attempts write the same metadata file name and no metadata write replaces an object (storage log + store
+             history); plus a probe with the real os.fork(): forked workers committing through the inherited handle report the
+             names they wrote.  Forked / threaded committers run the same schedules (enumeration, lease lapse + takeover at every
+             point, failing / delayed pointer writes, random 3-4 committers) under the serializability and acknowledged-commits
+             oracles and the trace correspondence.
 """
 from __future__ import annotations
 
@@ -66,9 +81,10 @@ from harness.props import c01
 
 LEVEL = "proof"
 THEOREMS = ["C08_ack_implies_validated", "C08_no_lost_update", "C08_lost_lock_before_fence_conflict",
-            "C08_cas_path_regenerated", "C08_failed_flip_reaction_regenerated", "C08_faulted_no_lost_update",
+            "C08_cas_path_regenerated", "C08_failed_flip_reaction_regenerated", "C08_faulted_no_lost_update_partial",
             "C08_failed_write_never_acknowledged", "C08_refusal_read_back_regenerated", "C08_acknowledged_iff_applied_refuted",
-            "C08_acknowledged_iff_applied_partial", "C08_fallback_replaced_what_it_read", "C08_fallback_no_lost_update_refuted",
+            "C08_acknowledged_iff_applied_partial", "C08_fallback_replaced_what_it_read_refuted", "C08_fallback_replaced_what_it_read_partial",
+            "C08_fallback_no_lost_update_refuted",
             "C08_fallback_no_lost_update_partial", "C08_fallback_path_regenerated"]
 MANIFEST_ENTRY = {
     "level_text": "For CAS storage and ANY lock behaviour (exclusive, lease with arbitrary takeovers, or no exclusion at all) Coq "
@@ -84,20 +100,29 @@ MANIFEST_ENTRY = {
                   "write -- under the stated hypothesis that no pointer write lands between that write and its read-back, and refuted by a "
                   "computed witness without it (C08_acknowledged_iff_applied_partial / _refuted); for commit()'s fallback on an UNUSABLE pointer (absent / garbage / dangling, damage anywhere) that every "
                   "applied pointer write replaced exactly the object whose ETag was read and validated the version that object named "
-                  "or, unusable, the version recovered by the scan -- unconditionally -- and the chain theorems under the stated "
-                  "hypothesis that every scan returns the last successfully written version (without it they are refuted by a "
-                  "computed witness: C08_fallback_no_lost_update_refuted / _partial); real S3StorageBackend / MetadataManager code is "
+                  "or, unusable, the version recovered by the scan -- under the stated hypothesis that no two damage events leave the same "
+                  "store-visible object ('absent' is ONE identity: create-if-absent; garbled = ETag of the content), refuted by computed "
+                  "witnesses for a pointer deleted twice / garbled twice with the same bytes within one attempt "
+                  "(C08_fallback_replaced_what_it_read_partial / _refuted) -- and the chain theorems under that hypothesis plus the stated "
+                  "hypothesis that every scan returns the last successfully written version (without either they are refuted by a "
+                  "computed witness: C08_fallback_no_lost_update_refuted / _partial); the failing-write chain theorem is _partial (machine in "
+                  "which no pointer write lands while a read-back is pending); real S3StorageBackend / MetadataManager code is "
                   "trace-validated against the three models over an in-memory conditional-write S3 under a deterministic scheduler with a "
                   "grant-everyone lock and the real lease lock, including a request-level failure of either committer's pointer PUT at "
                   "every interleaving position and committers that start on an unusable pointer, judged by implementation-only oracles "
-                  "over the store's own pointer history",
+                  "over the store's own pointer history; committers that are threads on one handle or workers forked from a process that "
+                  "had opened the table (inherited handle) run the same schedules, and the uniqueness of metadata file names per commit "
+                  "attempt is checked on every run and by a real os.fork() probe",
     "level_note": "trusted: Coq kernel; translator/gen_commit.py (single ETag-bearing pointer read before validation, the validated version "
                   "derived from that read's bytes -- C08_ack_implies_validated's `a_etag := a_cur := v` in ONE model step rests on this "
                   "data-flow check --, the only other assignment of `current` being the fallback refresh(); failure classes of the "
                   "conditional write: C08_cas_path_regenerated, C08_fallback_path_regenerated); harness projection (validation read must "
                   "be the ETag read; an ETag read that retried a missing object is placed at its last attempt); in-memory S3 is strongly "
-                  "consistent with atomic conditional PUT and ETags unique per object state (the property's premise; for an ABSENT pointer "
-                  "this excludes deleting it twice within one attempt); in-flight PUT delay = interleaving before the atomic landing, and "
+                  "consistent with atomic conditional PUT and ETags unique per object state (the property's premise; the Coq statements on the "
+                  "unusable pointer do NOT assume it: C08_fallback_*_partial state 'damaged objects pairwise distinguishable' and the "
+                  "_refuted ones give the double-damage run); a forked worker's handle is an in-process image of the parent's handle "
+                  "(harness/lib/forkimage.py: deep copy sharing only the store and the scheduler), cross-checked on file names by a real "
+                  "os.fork() probe; in-flight PUT delay = interleaving before the atomic landing, and "
                   "for a client that gave up on the request a landing event of its own (one fault per run); the fault injector at the boto "
                   "surface (harness/lib/protocol.py s3_fault) and the store's put history (mems3.py); the lost-lock theorem covers a lapse "
                   "BEFORE the fence -- a lapse between fence and conditional PUT can be acknowledged (harmless on CAS storage, "
